@@ -3,14 +3,21 @@
  * Explicit-state exploration of the REAL OpusDecoder object.
  *   state      = byte image of the decoder (opus_decoder_get_size bytes; memcpy snapshot / restore)
  *   transition = decode16 / decode24 / decode_float (packet, frame_size, fec), plc(frame_size), reset, set_gain
- *   stage 1    = BFS over the history alphabet H from the fresh state, visited set keyed by mc_hash of the whole image
- *                (depth 2 quick / 3 thorough); every transition is judged by the oracle
- *   stage 2    = from one representative (the minimal history) of every reachable *state class* (mode, prev_mode,
- *                prev_redundancy, stream_channels, bandwidth, frame_size, CELT loss_duration>0 / skip_plc, SILK
- *                nChannelsInternal / fs_kHz / lossCnt>0, gain class) the larger leaf alphabet L
- *   stage 3    = from the fresh state and from a few primed states: EVERY byte string of length <= 2 x 3 sample formats
- *                x FEC x frame-size alphabet F, the structural closure of base packets, argument probes, and all
- *                inspection functions on every packet (thorough: every byte string of length 3 as well)
+ *   BFS        = breadth-first search over the history alphabet H from the fresh state, visited set keyed by mc_hash of the
+ *                whole image (depth 2 quick / 3 thorough); every transition is judged by the oracle; the minimal history of
+ *                every state and of every state class is kept (deterministic whatever the worker scheduling)
+ *   probes     = argument-rejection probes (fec in {-1,2,...}, negative len / frame_size), zero-length packets
+ *   closure    = from the fresh state: structural closure of base packets (every prefix, byte substitutions {00,FF,^80,^01}
+ *                at every position, all 256 TOC bytes, 24 re-framings) x 3 sample formats x FEC x packet-relative frame sizes,
+ *                and all inspection functions on every variant
+ *   classes    = from one representative (the minimal history) of every reachable *state class* (mode, prev_mode,
+ *                prev_redundancy, stream_channels, [bandwidth: thorough], frame_size, CELT loss_duration>0 / skip_plc, SILK
+ *                nChannelsInternal / fs_kHz) the leaf alphabet L: all 256 TOC-only packets, structurally distinct 2-byte
+ *                packets, three payloads under the 256 TOC bytes, corpus packets, concealment of every size in F
+ *   small      = from the fresh state and from primed states: EVERY byte string of length <= 2 x 3 sample formats x FEC x
+ *                frame-size alphabet F, with all inspection functions (thorough: every byte string of length 3 as well)
+ * Stages run in this order (a wall-clock deadline cuts from the end). Item numbers are fixed per stage, so a replay of an item
+ * re-runs only the BFS levels it depends on.
  * Oracle (statement only): ASan-clean on exact-size heap blocks (packet copy without slack, PCM block of exactly
  * frame_size*channels samples), no crash / hardening abort / CPU-timeout, return in {documented negative codes except
  * OPUS_INTERNAL_ERROR} or 0<n<=frame_size, float samples finite, and  RFC-valid framing + enough capacity (fec=0)
@@ -80,7 +87,7 @@ static int run_decode(const cfg_t *c,OpusDecoder *d,const char *ctx,int api,cons
       if ((p==NULL||len==0) && ret!=fs) MC_INC(c_adv_plc);
       { uint64_t h=mc_mix(mc_mix(c->Fs,c->ch),mc_mix(api,fec)); h=mc_mix(h,(p&&len>0)?p[0]:0x1FF); h=mc_mix(h,ret); h=mc_mix(h,len>2?3:len);
         if (mirror_ok){ const odec_mirror *o=(const odec_mirror*)d; h=mc_mix(h,o->prev_mode*4+o->prev_redundancy); }
-        if (mc_set_add(obs,h)) mc_sample("Fs=%d ch=%d %s | %s(len=%d,frame_size=%d,fec=%d) pkt=%s -> n=%d (last_packet_duration=%d)",c->Fs,c->ch,ctx,API_NAME[api],len,fs,fec,(p&&len>0)?mc_hex(p,len>48?48:len):"-",ret,(int)dur); } }
+        if (mc_set_add(obs,h) && (h&1023)==0) mc_sample("Fs=%d ch=%d %s | %s(len=%d,frame_size=%d,fec=%d) pkt=%s -> n=%d (last_packet_duration=%d)",c->Fs,c->ch,ctx,API_NAME[api],len,fs,fec,(p&&len>0)?mc_hex(p,len>48?48:len):"-",ret,(int)dur); } }
    return ret;
 }
 
